@@ -412,6 +412,10 @@ func (f *Frame) havocCall(st *State, ms *ModSet, resType types.Type, name string
 // applyContract: assert pre, havoc frame, assume post. The callee body is not consulted.
 func (f *Frame) applyContract(ins ssa.Instruction, c *Contract, ct *callTarget, st *State, resType types.Type) Value {
 	nHypsBefore := len(f.root.hyps)
+	if f.root.used == nil {
+		f.root.used = map[string]bool{}
+	}
+	f.root.used[c.Func] = true
 	if ct.invoke {
 		f.safe(st, "nil", tNot(tEq(ct.args[0].(*Term), tInt(0))), ins.Pos(), "method call on nil interface")
 	}
